@@ -316,6 +316,13 @@ def c10(res, rng, tier, replay=None):
     res.rule = ('ExprGen globs (see C01) x sampled paths; non-trivial = distinct (glob, canonical matched path with >= 1 component '
                 'that agrees with has_root); tie: depth() of implementation vs model (exact variance); oracle: component count of every '
                 'such matched path lies within the depth variance the implementation reports')
+    # the table hypothesis of C10_flat_sound, over all code points: case folding never produces (or folds) a separator
+    fold = open(os.path.join(W.TABLES, 'fold.tbl')).read().strip()
+    res.evaluations += 1
+    for item in [x for x in fold.split(';') if x]:
+        c, orbit = item.split(':')
+        if c == '47' or '47' in orbit.split(','):
+            res.tie_fail('C10 table hypothesis: the case folding table relates a separator', {'entry': item})
     # crafted cells of the termination conjunction table: branches that are open / closed at either end, adjacent
     forms = ['{a,b/c}', '{a/,b/c/}', '{/a,/b/c}', '{/a/,/b/c/}', '{a,b/c/}', '{a/,/b}', '<a/:1,2>', '</a:1,2>', '<a/b:1,2>', '{a/**,b}', '{**/a,b}',
              '<a/:0,2>', '{a,b}', '<a:1,2>']
